@@ -2,7 +2,7 @@
 from plan import H, nlimbs
 
 FMT = ("alloc::fmt::format", "stubs::format_stub")
-PROBED_TO = [8, 64, 65, 128]      # Uint -> f64 widths whose harness finished in a measured probe
+PROBED_TO = [8, 64, 65]      # 128: solver counterexample does not reproduce natively (CBMC exp2 model), not registered
 PROBED_MONO = [8, 64]
 CLS = ["nan", "negative", "below_half", "half_to_2p52", "2p52_to_2p53", "ge_2p53", "pos_inf"]
 
